@@ -376,7 +376,44 @@ struct Gen {
     prefill_seed: u64,
 }
 
-fn random_strategy(evict: bool) -> impl Strategy<Value = Case> {
+/// Block sizes from distinct rows of Table 2 (K' <= 3000, so that plans stay cheap) that share the
+/// value of one column (0: J, 1: S, 2: H, 3: W); for each row its K' and a K just below it.
+fn table_family(column: usize, pick: usize) -> Vec<u16> {
+    static T: OnceLock<Vec<(u32, u32, u32, u32, u32, u32)>> = OnceLock::new();
+    let t = T.get_or_init(raptorq::verif::table2_with_p1);
+    let val = |r: &(u32, u32, u32, u32, u32, u32)| match column {
+        0 => r.1,
+        1 => r.2,
+        2 => r.3,
+        _ => r.4,
+    };
+    let small: Vec<usize> = (0..t.len()).filter(|&i| t[i].0 <= 3000).collect();
+    // rows (among the small ones) that have a partner with the same value
+    let with_partner: Vec<usize> = small.iter().copied().filter(|&i| small.iter().any(|&j| j != i && val(&t[j]) == val(&t[i]))).collect();
+    if with_partner.is_empty() {
+        return vec![3, 5, 9, 12];
+    }
+    let i = with_partner[pick % with_partner.len()];
+    let mut rows: Vec<usize> = small.iter().copied().filter(|&j| val(&t[j]) == val(&t[i])).collect();
+    // keep the chosen row and up to three partners (the nearest ones for H, which is shared widely)
+    rows.sort_by_key(|&j| (j as i64 - i as i64).abs());
+    rows.truncate(4);
+    let mut out = vec![];
+    for j in rows {
+        let kp = t[j].0 as u16;
+        out.push(kp);
+        let prev = if j == 0 { 0 } else { t[j - 1].0 as u16 };
+        if kp - prev >= 2 {
+            out.push(kp - 1);
+        }
+    }
+    out
+}
+
+/// `wide`: the sizes are spread over the whole key range instead of 1..=120 - families of sizes
+/// that agree modulo 256 / 512 / 1024 / 4096 (and, rarely, modulo 32768), so that a key that is
+/// narrowed, hashed or compared on part of its bits makes two requested sizes collide.
+fn random_strategy(evict: bool, wide: bool) -> impl Strategy<Value = Case> {
     (
         2usize..=4,
         proptest::collection::vec(any::<u16>(), 2..=if evict { 40 } else { 20 }),
@@ -386,17 +423,36 @@ fn random_strategy(evict: bool) -> impl Strategy<Value = Case> {
     )
         .prop_map(move |(threads, sizes, schedule, prefill_n, prefill_seed)| {
             let g = Gen { threads, sizes, schedule, prefill_n, prefill_seed };
-            // distinct prefill sizes in 1..=120
+            // distinct prefill sizes in 1..=120 (wide: 16 residues x 6 multiples of 256)
             let mut rng = SplitMix::new(g.prefill_seed);
-            let mut pool: Vec<u16> = (1..=120).collect();
+            let mut pool: Vec<u16> = if wide && evict {
+                let c0 = 1 + (g.prefill_seed >> 40) as u16 % 200;
+                (0..16u16).flat_map(|c| (0..6u16).map(move |j| c0 + c + 256 * j)).collect()
+            } else if wide && (g.prefill_seed >> 36) % 2 == 0 {
+                // sizes from different rows of Table 2 that agree in one derived parameter
+                // (J, S, H or W): a plan must never be shared or adapted across such rows
+                table_family((g.prefill_seed >> 37) as usize % 4, (g.prefill_seed >> 40) as usize)
+            } else if wide {
+                let c = 1 + (g.prefill_seed >> 40) as u16 % 200;
+                let mut a = vec![c, c + 256, c + 512, c + 1024, c + 4096, c + 1, c + 257];
+                if (g.prefill_seed >> 32) % 16 == 0 {
+                    a.push(c + 32768);
+                }
+                a
+            } else {
+                (1..=120).collect()
+            };
+            let pool_len = pool.len();
             rng.shuffle(&mut pool);
-            let prefill: Vec<u16> = pool[..g.prefill_n].to_vec();
+            let prefill: Vec<u16> = pool[..g.prefill_n.min(pool_len)].to_vec();
             // concurrent requests: from a small alphabet so that collisions are common; with
             // eviction: sizes that were prefilled early (already evicted) and fresh ones
             let alphabet: Vec<u16> = if evict {
                 let mut a: Vec<u16> = prefill.iter().take(6).copied().collect();
-                a.extend(pool[g.prefill_n..(g.prefill_n + 6).min(120)].iter().copied());
+                a.extend(pool[g.prefill_n.min(pool_len)..(g.prefill_n + 6).min(pool_len)].iter().copied());
                 a
+            } else if wide {
+                pool.clone()
             } else {
                 vec![3, 5, 9, 12]
             };
@@ -411,11 +467,11 @@ fn random_strategy(evict: bool) -> impl Strategy<Value = Case> {
         })
 }
 
-fn run_random(name: &str, seed: u64, n: u64, evict: bool) -> SubOutcome {
+fn run_random(name: &str, seed: u64, n: u64, evict: bool, wide: bool) -> SubOutcome {
     let started = Instant::now();
     let mut st = Stats::new();
     let mut failures = vec![];
-    let strat = random_strategy(evict);
+    let strat = random_strategy(evict, wide);
     let mut runner = TestRunner::new(Config { cases: n as u32, failure_persistence: None, rng_seed: RngSeed::Fixed(crate::util::derive_seed(seed, "C17", name, 0)), max_shrink_iters: 300, ..Config::default() });
     // driven manually (sequentially): cases must not overlap because the cache is process-wide
     for _ in 0..n {
@@ -568,8 +624,12 @@ pub fn run(ctx: &Ctx, rep: &mut Report) {
     st.class_n("request shapes", (shapes.len() + hold_shapes.len()) as u64);
     st.class_n("request shapes explored with threads parking while they hold a plan", hold_shapes.len() as u64);
     rep.absorb("exhaustive", SubOutcome { stats: st, failures, wall_s: started.elapsed().as_secs_f64() });
-    rep.absorb("random", run_random("random", ctx.seed, ctx.tier.pick(5000, 60_000), false));
-    rep.absorb("eviction", run_random("eviction", ctx.seed, ctx.tier.pick(600, 9_000), true));
+    rep.absorb("random", run_random("random", ctx.seed, ctx.tier.pick(5000, 60_000), false, false));
+    rep.absorb("eviction", run_random("eviction", ctx.seed, ctx.tier.pick(600, 9_000), true, false));
+    // the same two generators over sizes spread across the key range (families equal modulo
+    // 256 / 512 / 1024 / 4096 / 32768): "any mix of block sizes" is not "sizes up to 120"
+    rep.absorb("widekeys", run_random("widekeys", ctx.seed, ctx.tier.pick(400, 6_000), false, true));
+    rep.absorb("widekeys-eviction", run_random("widekeys-eviction", ctx.seed, ctx.tier.pick(40, 600), true, true));
     if ctx.tier == Tier::Thorough {
         rep.absorb("stress", stress(ctx.seed, 16, 6000));
     } else {
